@@ -1,5 +1,5 @@
 """Assembly of all contract modules, per-property metadata."""
-from . import base, c_output
+from . import base, iface, c_output
 
 MODULES = [c_output]
 
@@ -12,6 +12,8 @@ REPLAY = {}         # function qualname (or (qualname, self_cls)) -> replay driv
 
 def register(reg):
     base.schema(reg)
+    base.schema2(reg)
+    iface.register(reg)
     for m in MODULES:
         m.register(reg)
         for k in ("LEVEL", "EXPLAIN", "BOUNDED", "REPLAY"):
@@ -25,6 +27,7 @@ def register(reg):
 
 def install(ex):
     base.install(ex)
+    base.install2(ex)
     for m in MODULES:
         if hasattr(m, "install"):
             m.install(ex)
